@@ -10,7 +10,7 @@ import FqModel.C01Spec
   `bw <nBits>:<hex> …`                          TAB `<hex written>`      bitio.IOBitWriter over a bytes.Buffer: WriteBits per chunk, then Flush
   `h <term> | <op> ; <op> ; …`                  TAB `<obs>;<obs>;…`      one history on one reader composition
 
-  term (prefix):  B <hex> <nBits|-1> | S <off> <n> T | M <k> T×k | Z <n> | L <n> T | I U
+  term (prefix):  B <hex> <nBits|-1> | S <off> <n> T | M <k> T×k | Z <n> | L <n> T | I U | O (F <hex> | G <size> <seed>)
                   U: R <hex> | F <hex> | G <size> <seed> | A <minRead> U | P <precision> <total> U | C U | Y T | y T
   op:  ra n off | rd n | sk off s|c|e | cl | rf n | raf n off | ird n | isk off s|c|e
   obs: `<n> <hex|-> <ok|eof|off|neg|ueof|oth>` | `panic` | `hang`
@@ -65,6 +65,12 @@ def parseTerm : Nat → List String → Option (Rd × List String)
     | "I" :: rest => do
       let (b, rest) ← parseTerm fuel rest
       pure (newIOBits b, rest)
+    | "O" :: rest => do
+      -- the reader stack of interp._open over a file, with the constants regenerated from pkg/interp/binary.go
+      let (leaf, rest) ← parseTerm fuel rest
+      match leaf with
+      | .raw data _ _ => pure (openStackOn leaf data.length, rest)
+      | _ => none
     | "R" :: hex :: rest => do
       let data ← bytesOfHex hex
       pure (.raw data 0 false, rest)
